@@ -223,6 +223,82 @@ def given_windows(node, out):
         given_windows(c, out)
 
 
+# ---- upsert action: DO NOTHING / DO UPDATE SET a = .., b = ..  |  ON DUPLICATE KEY UPDATE a = .., b = .. ---------
+def given_upsert(prog):
+    """what the on-conflict calls of an INSERT program ask for, read as a history: ('nothing', pk columns) or
+    ('update', number of assignments); None if no action call was made or there is no on-conflict clause"""
+    oc = [c for c in prog[1:] if isinstance(c, list) and c and c[0] == "onconflict"]
+    if not oc:
+        return None
+    act = None
+    for op in oc[-1][1:]:
+        if not isinstance(op, list):
+            continue
+        if op[0] == "nothing":
+            act = ("nothing", 0)
+        elif op[0] == "nothingon":
+            act = ("nothing", len(op) - 1)
+        elif op[0] in ("updcol", "updexpr"):
+            act = ("update", act[1] + 1) if act and act[0] == "update" else ("update", 1)
+    return act
+
+
+def rendered_upsert(b, tl):
+    """('nothing',) | ('ignore',) | ('update', n assignments) | None, read from the top-level upsert clause"""
+    d, i, n = 0, 0, len(tl)
+    start = None
+    while i < n:
+        t = tl[i]
+        if t == ("C", "("):
+            d += 1
+        elif t == ("C", ")"):
+            d -= 1
+        elif d == 0 and t == ("W", "ON") and i + 1 < n and tl[i + 1] in (("W", "CONFLICT"), ("W", "DUPLICATE")):
+            start = i
+        i += 1
+    if start is None:
+        return None
+    i, d = start + 2, 0
+    kind = None
+    while i < n:
+        t = tl[i]
+        if t == ("C", "("):
+            d += 1
+        elif t == ("C", ")"):
+            d -= 1
+        elif d == 0 and t[0] == "W":
+            if b == "pg" and t[1] == "DO":
+                if i + 1 < n and tl[i + 1] == ("W", "NOTHING"):
+                    return ("nothing",)
+                if i + 2 < n and tl[i + 1] == ("W", "UPDATE") and tl[i + 2] == ("W", "SET"):
+                    kind, i = "update", i + 3
+                    break
+                raise WindowError("DO is followed by %r" % (tl[i + 1:i + 3],))
+            if b == "my" and t[1] == "IGNORE":
+                return ("ignore",)
+            if b == "my" and t[1] == "UPDATE":
+                kind, i = "update", i + 1
+                break
+            if t[1] == "RETURNING":
+                return None
+        i += 1
+    if kind is None:
+        return None
+    cnt, d = 1, 0
+    while i < n:
+        t = tl[i]
+        if t == ("C", "("):
+            d += 1
+        elif t == ("C", ")"):
+            d -= 1
+        elif d == 0 and t == ("C", ","):
+            cnt += 1
+        elif d == 0 and t in (("W", "WHERE"), ("W", "RETURNING")):
+            break
+        i += 1
+    return ("update", cnt)
+
+
 FOREIGN = {
     "my": [r"\$\d", r"\bRETURNING\b", r"\bILIKE\b", r"DISTINCT ON", r"NULLS (FIRST|LAST)", r"TABLESAMPLE", r"ON CONFLICT", r"\bSEARCH\b.*\bFIRST BY\b", r"MATERIALIZED"],
     "pg": [r"ON DUPLICATE KEY", r"\bROW\(", r"(USE|IGNORE|FORCE) INDEX", r"IS NULL (ASC|DESC),", r"DISTINCTROW"],
@@ -230,6 +306,7 @@ FOREIGN = {
 
 
 WINSTAT = [0]
+UPSTAT = [0]
 
 
 def gen_cases(ctx):
@@ -324,6 +401,25 @@ def batch_oracle(ctx, lines, impl):
                 WINSTAT[0] += len(got_w)
             except WindowError as e:
                 verdicts[i] = "a window definition is not well-formed on %s: %s" % (b, e)
+        # the upsert action: what the history of on-conflict calls asks for is what is written
+        if verdicts[i] is None and prog[0] == "insert":
+            want_u = given_upsert(prog)
+            if want_u is not None:
+                try:
+                    got_u = rendered_upsert(b, tl)
+                except WindowError as e:
+                    got_u = ("unreadable", str(e))
+                if b == "pg":
+                    exp_u = ("nothing",) if want_u[0] == "nothing" else ("update", want_u[1])
+                elif want_u[0] == "nothing":
+                    exp_u = ("ignore",) if want_u[1] == 0 else ("update", want_u[1])
+                else:
+                    exp_u = ("update", want_u[1])
+                if got_u != exp_u:
+                    verdicts[i] = "the on-conflict calls ask for %r, the statement carries %r" % (exp_u, got_u)
+                elif exp_u == ("ignore",):
+                    verdicts[i] = "MYSQLIGNORE ON DUPLICATE KEY IGNORE is not a MySQL statement (do_nothing() without key columns)"
+                UPSTAT[0] += 1
         # dialect-specific constructs only in their own dialect (keywords outside literals/identifiers)
         text = " ".join(t[1] for t in tl if t[0] in "WOC")
         text = text.replace("( ", "(")
@@ -333,14 +429,16 @@ def batch_oracle(ctx, lines, impl):
                 break
     ctx.cov["oracle_statements_checked"] = checked
     ctx.cov["oracle_window_definitions_read"] = WINSTAT[0]
+    ctx.cov["oracle_upsert_actions_read"] = UPSTAT[0]
     return verdicts
 
 
 def classify(case, out, failure, kfs):
-    if failure.startswith("WINDOW "):
-        for k in kfs:
-            if k.get("matcher", {}).get("class") == "named-window-clause":
-                return k
+    for prefix, cls in (("WINDOW ", "named-window-clause"), ("MYSQLIGNORE ", "mysql-on-duplicate-key-ignore")):
+        if failure.startswith(prefix):
+            for k in kfs:
+                if k.get("matcher", {}).get("class") == cls:
+                    return k
     return None
 
 
